@@ -290,18 +290,21 @@ def run_stage(prop, tier, seed, stage, nshards_default):
                 # in-process watchdog are recorded directly and the shard is resumed
                 res["violations"].append({"sig": "hang", "sub": sub, "idx": idx, "seed": seed, "variant": variant, "detail": {"what": "case exceeded the in-process watchdog (an earlier one was confirmed alone)", "rc": r["rc"]}})
                 restarts += 1
-                if restarts > 40:
-                    res["inconclusive"].append(f"{name}: shard {r['shard']} restarted {restarts} times; giving up on its remaining cases")
+                if restarts > 3:
+                    # the verdict of this stage is already "violated"; what is left of this
+                    # shard is not explored (said in the notes, the evidence counts only what ran)
+                    res["notes"].append(f"shard {r['shard']}: {restarts} cases hung; its remaining cases were not run (a hang is already confirmed)")
                     break
                 cur_dir = os.path.join(WORK, "logs", prop, name + f"-resume-{r['shard']}-{restarts}")
                 r = run_shards(variant, prop, tier, seed, nshards, cur_dir, stage.get("args", []) + ["--resume-after", sub, str(idx)], timeout_s, env_extra, shard_ids=[r["shard"]], wrapper=stage.get("wrapper"))[0]
                 if r["json"] is not None:
                     results.append(r)
                 continue
+            solo_env = env_extra
             if suspected_hang:
                 # a suspected hang is confirmed alone with a 10x larger per-case limit
-                env_extra = dict(env_extra, JBV_WATCHDOG_S=str(10 * int(env_extra.get("JBV_WATCHDOG_S", "60"))))
-            solo = run_shards(variant, prop, tier, seed, 1, solo_dir, stage.get("args", []) + ["--replay", sub, str(idx)], solo_timeout, env_extra, shard_ids=[0], wrapper=stage.get("wrapper"))[0]
+                solo_env = dict(env_extra, JBV_WATCHDOG_S=str(10 * int(env_extra.get("JBV_WATCHDOG_S", "60"))))
+            solo = run_shards(variant, prop, tier, seed, 1, solo_dir, stage.get("args", []) + ["--replay", sub, str(idx)], solo_timeout, solo_env, shard_ids=[0], wrapper=stage.get("wrapper"))[0]
             solo_tail = tail(os.path.join(solo_dir, "shard-0.stderr"), 60)
             if solo["json"] is not None:
                 # did not reproduce alone: keep its findings, flag the shard loss as inconclusive
